@@ -93,6 +93,28 @@ type Builder struct {
 	fSubsidy, fMgmt types.Address
 	// ephemeral policy
 	AllowEphemeral bool
+	// v2 scenario actions requested before the v1 part of the block was drawn (see AfterV1)
+	deferred []func()
+}
+
+// AfterV1 runs f once no further v1 transaction will be added to the block. A block lists its v1
+// transactions before its v2 transactions, and the running values the ledger keeps (tax pool,
+// Foundation addresses, outputs created in the block) follow action order, so action order has to
+// equal block order.
+func (b *Builder) AfterV1(f func()) {
+	if !b.v1Allowed() {
+		f()
+		return
+	}
+	b.deferred = append(b.deferred, f)
+}
+
+func (b *Builder) runDeferred() {
+	d := b.deferred
+	b.deferred = nil
+	for _, f := range d {
+		f()
+	}
 }
 
 // NewBuilder starts a block on the tip of c.
@@ -105,7 +127,9 @@ func NewBuilder(t *rapid.T, c *Chain, w *World) *Builder {
 		fSubsidy: cs.FoundationSubsidyAddress, fMgmt: cs.FoundationManagementAddress, AllowEphemeral: true}
 }
 
-func (b *Builder) v1Allowed() bool  { return b.Child < b.C.Net.HardforkV2.RequireHeight }
+func (b *Builder) v1Allowed() bool {
+	return b.Child < b.C.Net.HardforkV2.RequireHeight && len(b.V2) == 0 // no v1 action after the first v2 one (AfterV1)
+}
 func (b *Builder) v2Allowed() bool  { return b.Child >= b.C.Net.HardforkV2.AllowHeight }
 func (b *Builder) maturity() uint64 { return b.Child + b.C.Net.MaturityDelay }
 func (b *Builder) label(l string)   { b.Exp.Labels = append(b.Exp.Labels, l) }
@@ -445,7 +469,7 @@ func (b *Builder) V1Form() bool {
 	data, root := b.drawFile("v1form")
 	ws := b.Child + uint64(rapid.IntRange(0, 5).Draw(t, "ws"))
 	we := ws + uint64(rapid.IntRange(1, 4).Draw(t, "we"))
-	owner := b.W.Reg(MakeLock(LockSpec{Kind: rapid.SampledFrom([]int{0, 1, 3}).Draw(t, "fcLockKind"), K1: rapid.IntRange(0, NumKeys-1).Draw(t, "fck1"), K2: rapid.IntRange(0, NumKeys-1).Draw(t, "fck2")}))
+	owner := b.W.Reg(MakeLock(LockSpec{Kind: rapid.SampledFrom([]int{0, 1, 3, 4}).Draw(t, "fcLockKind"), K1: rapid.IntRange(0, NumKeys-1).Draw(t, "fck1"), K2: rapid.IntRange(0, NumKeys-1).Draw(t, "fck2")}))
 	vp := split(t, "valid", validSum, 2)
 	mp := split(t, "missed", validSum, rapid.IntRange(2, 3).Draw(t, "nMissed"))
 	fc := types.FileContract{
@@ -1123,6 +1147,7 @@ func (b *Builder) Fill(p Profile) {
 		}
 		n -= nv1
 	}
+	b.runDeferred()
 	if len(v2acts) > 0 {
 		for i := 0; i < n; i++ {
 			a := v2acts[rapid.IntRange(0, len(v2acts)-1).Draw(b.T, "act2")]
@@ -1134,6 +1159,7 @@ func (b *Builder) Fill(p Profile) {
 // Finish seals the block, completes the expectation (payout, subsidy, expiring v1
 // contracts) and returns block, supplement and expectation.
 func (b *Builder) Finish(tsMode int, jitter int64) (types.Block, consensus.V1BlockSupplement, *Expect, error) {
+	b.runDeferred()
 	blk := types.Block{Timestamp: NextTimestamp(b.CS, tsMode, jitter), Transactions: b.V1}
 	if b.v2Allowed() && (len(b.V2) > 0 || !b.v1Allowed() || rapid.IntRange(0, 2).Draw(b.T, "emptyV2Data") != 0) {
 		blk.V2 = &types.V2BlockData{Transactions: b.V2}
